@@ -397,8 +397,7 @@ func RunSvc(sim *sched.Sim, c *SvcCase, raceMode bool, setup func(e *Engine)) *S
 	sim.RoleOf = roleOf
 	e := NewEngine(sim, h, c)
 	run := &SvcRun{E: e, H: h, States: map[string]bool{}}
-	canon := newCanon()
-	sim.Canon = canon.canon
+	useCanon(sim)
 	sim.Observer = e.HookObserver2
 	res.VerifHook = sim.Yield
 	defer func() { res.VerifHook = nil }()
@@ -974,9 +973,10 @@ type canonT struct {
 func newCanon() *canonT { return &canonT{} }
 
 // canon replaces random inbox names by their order of first appearance. It
-// is only called from Yield on the parking goroutine, under the scheduler's
-// lock; one task runs at a time, so the order of first appearance is
-// deterministic. It uses no map and is not instrumented, so that it is
+// is called under the scheduler's lock, by the scheduler at decision points
+// for the tasks that parked since the last one, in their canonical order:
+// several goroutines may have been woken in one step (timers due at the same
+// instant), and the order in which they arrive is not the simulator's. It uses no map and is not instrumented, so that it is
 // invisible to the race detector.
 //
 //go:norace
@@ -996,6 +996,30 @@ func (c *canonT) canon(s string) string {
 		c.n++
 	}
 	return s[:i] + "INBOX#" + strconv.Itoa(c.n)
+}
+
+// peek applies the names handed out so far and masks the others.
+//
+//go:norace
+func (c *canonT) peek(s string) string {
+	i := strings.Index(s, "_INBOX.")
+	if i < 0 || strings.HasPrefix(s[i:], "_INBOX.peer.") {
+		return s
+	}
+	key := s[i:]
+	for k := 0; k < c.n; k++ {
+		if c.keys[k] == key {
+			return s[:i] + "INBOX#" + strconv.Itoa(k+1)
+		}
+	}
+	return s[:i] + "INBOX#?"
+}
+
+// useCanon makes sim canonicalise inbox names in hook arguments.
+func useCanon(sim *sched.Sim) *canonT {
+	c := newCanon()
+	sim.Canon, sim.CanonPeek = c.canon, c.peek
+	return c
 }
 
 func (CoreScenario) GenCase(r *rand.Rand, prop string) interface{} {
